@@ -2312,6 +2312,13 @@ int _vnaproperty_yaml_import(vnaproperty_yaml_t *vymlp,
 		value = yaml_document_get_node(document, pair->value);
 		if ((subtree = vnaproperty_set_subtree(rootptr, "%s",
 			    (const char *)key->data.scalar.value)) == NULL) {
+		    if (errno == EINVAL) {	/* key is not a descriptor */
+			_vnaproperty_yaml_error(vymlp, VNAERR_SYNTAX,
+				"%s (line %ld) error: invalid property key",
+				vymlp->vyml_filename,
+				(long)key->start_mark.line + 1);
+			goto out;
+		    }
 		    _vnaproperty_yaml_error(vymlp, VNAERR_SYSTEM,
 			    "_vnaproperty_set_subtree: %s: %s",
 			    vymlp->vyml_filename, strerror(errno));
